@@ -57,7 +57,7 @@ def fill(fam, ap, target, rng, maxn=6000):
     while total < target and len(out) < maxn:
         room = target - total
         v = nlrienc.gen_value(fam, rng, rng.below(1 << 32) if ap else None,
-                              boundary=(rng.choice([0, 3, 6, 7, 12, 30, 100]) if nlrienc.kind(fam) in ('F', 'E') else None))
+                              boundary=(rng.choice([0, 3, 6, 7, 12, 30, 100, 100, 238, 239, 240, 240, 241, 254, 255]) if nlrienc.kind(fam) in ('F', 'E') else None))
         b = nlrienc.encode(v)
         if len(b) > room:
             x = nlri_sized(fam, ap, room, rng)
